@@ -174,7 +174,7 @@ Definition parse_params (s0 : str) : option qparams :=
                   | Some b => Some (mkParams b (filter (fun kv => negb (str_eqb (fst kv) k_process)) kvs))
                   | None => None
                   end
-      | None => Some (mkParams true kvs)
+      | None => Some (mkParams true (filter (fun kv => negb (str_eqb (fst kv) k_process)) kvs))
       end
     else None
   end.
@@ -290,3 +290,23 @@ Definition tag20 (c : c20_case) : N :=
   end.
 
 Definition report20 := report corr20 mon20 tag20.
+
+(* ---------- printing query parameters (specification side of the round trip) ---------- *)
+Definition print_kv (kv : str * str) : str := fst kv ++ eqc :: snd kv.
+Fixpoint join_amp (l : list str) : str :=
+  match l with
+  | [] => []
+  | [x] => x
+  | x :: r => x ++ amp :: join_amp r
+  end.
+Definition print_kvs (kvs : list (str * str)) : str := join_amp (map print_kv kvs).
+Definition wf_kv (kv : str * str) : bool := seg_ok is_comp_char (fst kv) && seg_ok is_val_char (snd kv).
+(* the parameter lists NewQueryParameters accepts *)
+Definition wf_kvs (kvs : list (str * str)) : bool :=
+  nonempty kvs && forallb wf_kv kvs && keys_nodup kvs &&
+  match assoc k_process kvs with Some v => match parse_bool v with Some _ => true | None => false end | None => true end.
+Definition params_of (kvs : list (str * str)) : qparams :=
+  mkParams (match assoc k_process kvs with
+            | Some v => match parse_bool v with Some b => b | None => true end
+            | None => true end)
+           (filter (fun kv => negb (str_eqb (fst kv) k_process)) kvs).
